@@ -309,6 +309,87 @@ def r16e(ctx, rep, cr):
                       'verify() returning Ok while height() and tip_hash() name a missing block' % (len(fetch), len(bulk)))
 
 
+def _root_check_edges(f, defs):
+    """edges taken when header.state_root equals the state root computed from the store"""
+    out = set()
+    for i, b in enumerate(f.bbs):
+        if b['cleanup'] or b['t'][0] != 'sw':
+            continue
+        l = lib.switch_local(f, i)
+        d = A.single_def(defs, l) if l is not None else None
+        if not d:
+            continue
+        ops = None
+        is_ne = False
+        if d[2] == 'call' and re.search(r'PartialEq(<.*>)?>?::(eq|ne)$', d[3].generic):
+            ops = d[3].args
+            is_ne = d[3].generic.endswith('ne')
+        elif d[2] == 'st' and d[3][1][0] == 'bin' and d[3][1][1] in ('Eq', 'Ne'):
+            ops = [d[3][1][2], d[3][1][3]]
+            is_ne = d[3][1][1] == 'Ne'
+        if not ops:
+            continue
+        sl = A.backward_slice(f, ops, defs)
+        if not any(x.endswith('BlockHeader.state_root') for x in sl.fields) or not any(x.endswith('compute_state_root') for x in sl.calls):
+            continue
+        t = b['t']
+        if not all(v == '0' for v, _ in t[2]):
+            continue
+        zero = dict(t[2]).get('0')
+        out.add((i, zero if is_ne else t[3]))
+    return out
+
+
+def r16f(ctx, rep, cr):
+    rep.rule('R16f', 'a replica stores a block only if its state root matches the state it computed: every call to Chain::append in '
+                     'TensorStateMachine is reachable only through the equal edge of a comparison between BlockHeader.state_root and '
+                     'compute_state_root(store) — in the function itself, or at every call site of the helper that contains it '
+                     '(append_fast and append_full alike; callers to depth 2). A fast path that skips the comparison lets replicas '
+                     'agree on the chain while holding different state')
+    cg = ctx.callgraph(['tensor_chain'])
+    SM = 'tensor_chain::state_machine::TensorStateMachine::'
+    n = 0
+
+    def guarded(fname, bb, depth):
+        g = cg.fns[fname]
+        gd = A.Defs(g)
+        eq = _root_check_edges(g, gd)
+        if eq:
+            # cut the *unequal* continuation: everything except the equal edges of those switches
+            cut = set()
+            for (a, tgt) in eq:
+                for s_ in A.succs(g, a):
+                    if s_ != tgt:
+                        cut.add((a, s_))
+            R = A.reachable(g, [0], cut_edges={(a, tgt) for (a, tgt) in eq})
+            if bb not in R:
+                return True
+        if depth <= 0:
+            return False
+        callers = [x for x in cg.redges.get(fname, ()) if x in cg.fns and x.startswith(SM)]
+        if not callers:
+            return False
+        for h in callers:
+            for s_ in cg.sites.get((h, fname), []):
+                if not guarded(h, s_.bb, depth - 1):
+                    return False
+        return True
+    for name, f in sorted(cr.fns.items()):
+        if not name.startswith(SM):
+            continue
+        for k, c in enumerate(A.calls_to(f, ('re', r'chain::Chain::append$'))):
+            n += 1
+            rep.analysed(f)
+            if guarded(name, c.bb, 2):
+                rep.holds('R16f', f, 'append#%d' % k, 'behind state_root == compute_state_root')
+            else:
+                rep.violation('R16f', f, 'append-without-root-check', f.loc(c.line),
+                              'the block is appended on a path where header.state_root was never compared with the state root computed '
+                              'from the store: a block with a forged or diverged state_root is accepted, and replicas agree on the chain '
+                              'while their stores differ')
+    rep.floor('R16f', 'Chain::append calls in TensorStateMachine', n, 2)
+
+
 def run(ctx, rep):
     cr = ctx.crate('tensor_chain')
     r16a(ctx, rep, cr)
@@ -316,3 +397,4 @@ def run(ctx, rep):
     r16c(ctx, rep, cr)
     r16d(ctx, rep, cr)
     r16e(ctx, rep, cr)
+    r16f(ctx, rep, cr)
